@@ -278,6 +278,25 @@ fn main() {
     }
 
     let mut case = 0usize;
+    // probe a single shape (manual experiments): VH_SHAPE=comb:<n>:<tooth>:<join 0/1>
+    if let Ok(spec) = std::env::var("VH_SHAPE") {
+        let t: Vec<&str> = spec.split(':').collect();
+        let num = |i: usize| t.get(i).and_then(|x| x.parse::<usize>().ok()).unwrap_or(0);
+        let d = match t[0] {
+            "comb" => comb_dag(&mut rng, num(1), num(2), num(3) == 1, 17),
+            "ladders" => ladders_dag(&mut rng, num(1), num(2), num(3), num(4), 10, 17),
+            "wide" => wide_dag(&mut rng, num(1), num(2), 17),
+            _ => panic!("unknown shape"),
+        };
+        let cmds = realize(&d, salt(&args, 0));
+        rec.begin_case();
+        rec.count(&format!("shape:{spec}"));
+        let o = Opts { merge_sample: 97, label: format!("probe:{spec}") };
+        let sched = make_schedule(&mut rng, &cmds, false, (cmds.len() as u64 / 3).max(8), false);
+        guarded(&mut rec, &sched, &o, 0);
+        rec.finish(args.seed, &args.tier);
+        return;
+    }
     // ---- random DAGs
     let cases = args.budget(150, 1500);
     for _ in 0..cases {
